@@ -140,6 +140,23 @@ def run(report, p):
             ok, why = param_reaches_spec(p, c, pn)
             r2.check(ok, c, c.node, f"option {pn} of `{name}` is accepted and ignored: {why}", construct=f"{name} option {pn}: {why}")
 
+    # ------------------------------------------------------------------ R12.10
+    r10 = report.rule(
+        "R12.10",
+        "the -i / --ignore option of every command is declared `multiple=True`: the spec receives a tuple of whole patterns. Declared single, click hands over ONE string and the spec, "
+        "which iterates what it is given, takes every character as a pattern (`*.bak` becomes `*`, `.`, `b`, `a`, `k` - everything is ignored); -ii takes exactly one file",
+        6,
+    )
+    for name, c in cmds.items():
+        opts = p.click_options(c)
+        for pn, role in ignore_option_params(p, c).items():
+            o = opts[pn]
+            r10.instance(c, o["node"], f"{name} option {pn} ({role}) multiple={o['multiple']}")
+            if role == "list":
+                r10.check(o["multiple"], c, o["node"], f"option {o['decl']} of `{name}` is not declared multiple=True: the pattern string is taken apart into one-character patterns by the ignore spec", construct=f"{name}: -i declared single")
+            else:
+                r10.check(not o["multiple"], c, o["node"], f"option {o['decl']} of `{name}` is declared multiple: the spec opens its value as one file path", construct=f"{name}: -ii declared multiple")
+
     # ------------------------------------------------------------------ R12.9
     r9 = report.rule(
         "R12.9",
